@@ -5,6 +5,7 @@ package main
 import (
 	"fmt"
 	"go/types"
+	"strings"
 
 	"golang.org/x/tools/go/ssa"
 )
@@ -156,7 +157,15 @@ func (e *Engine) buildUnit(name string) (res *UnitResult) {
 				label = fmt.Sprintf("post%d", i)
 			}
 			vc.safeEval(fmt.Sprintf("%s:%d ensures", en.File, en.Line), func() {
-				vc.oblige(r.st, "ensures", label, fmt.Sprintf("%s@return#%d", label, r.ord), e.pos(r.pos), env.evalBool(en.E))
+				goal := env.evalBool(en.E)
+				o := vc.oblige(r.st, "ensures", label, fmt.Sprintf("%s@return#%d", label, r.ord), e.pos(r.pos), goal)
+				// a known finding with a region: outside the region the obligation must still hold
+				for _, f := range e.findings {
+					if f.Kind == "finding" && f.RegionE != nil && strings.HasPrefix(o.Name, f.Obligation) {
+						reg := env.evalBool(f.RegionE)
+						vc.oblige(r.st, "ensures", label, fmt.Sprintf("%s@return#%d~outside-region", label, r.ord), e.pos(r.pos), mkOr(reg, goal))
+					}
+				}
 			})
 		}
 		for _, a := range c.Ats {
@@ -165,7 +174,15 @@ func (e *Engine) buildUnit(name string) (res *UnitResult) {
 			}
 			a := a
 			vc.safeEval(fmt.Sprintf("%s:%d at return", a.C.File, a.C.Line), func() {
-				vc.oblige(r.st, "assert", a.C.Label, fmt.Sprintf("at return#%d:%s", r.ord, a.C.Label), e.pos(r.pos), env.evalBool(a.C.E))
+				// private clause: may mention the function's locals at the return
+				lenv := fc.env(r.st, r.blk)
+				lenv.atInstr = r.instr
+				for k, v := range env.vars {
+					if _, isParam := fc.entryEnv[k]; !isParam {
+						lenv.vars[k] = v
+					}
+				}
+				vc.oblige(r.st, "assert", a.C.Label, fmt.Sprintf("at return#%d:%s", r.ord, a.C.Label), e.pos(r.pos), lenv.evalBool(a.C.E))
 			})
 		}
 	}
